@@ -150,5 +150,19 @@ func init() {
 		seed, _ := strconv.ParseInt(args[0], 10, 64)
 		n, _ := strconv.Atoi(args[1])
 		mintProbe(seed, n, args[2])
+		// the parameter-update messages of bet, house, orderbook and mint (paramsmsg.go), on one default chain
+		func() {
+			r := rand.New(rand.NewSource(seed + 17))
+			h := newHistWriter(args[2] + "_params.txt")
+			defer h.close()
+			c, err := NewChain(GenesisFor("bet", r))
+			if err != nil {
+				h.line("BOOTFAIL " + strings.ReplaceAll(err.Error(), "\n", " "))
+				return
+			}
+			h.line(genLine(c))
+			ev := paramsMsgProbe(r, 6*n, h, c)
+			h.line(fmt.Sprintf("MONCOUNT %d", ev))
+		}()
 	}
 }
